@@ -350,7 +350,16 @@ impl Rebuildable for Declaration
 			Declaration::Import {
 				filename,
 				location: _,
-			} => Ok(format!("{}import \"{}\";\n", indentation, filename)),
+			} =>
+			{
+				// Escape the path as a string literal would be.
+				let escaped_bytes: Vec<u8> = filename
+					.bytes()
+					.flat_map(|b| std::ascii::escape_default(b))
+					.collect();
+				let value = String::from_utf8_lossy(&escaped_bytes).to_string();
+				Ok(format!("{}import \"{}\";\n", indentation, value))
+			}
 			Declaration::Poison(poison) => poison.rebuild(indentation),
 		}
 	}
